@@ -456,3 +456,23 @@ package patch
 //@   panics_only_if rejected: originType == nil || replacement == nil || rv_kind(value_of(replacement)) != reflect.Func
 //@     | || !sig_compatible(rv_type(rt_method_func(originType, methodName)), rv_type(value_of(replacement)))
 //@   ensures_on_panic nothing_written: text_unchanged() && table_inv() && !locked()
+
+// UnpatchAll walks the whole table.  Like unpatchValue it relies on the caller holding patchesLock
+// (its only callers are tests inside this package tree); entry windows of distinct targets are disjoint
+// because every patched target is longer than its 13-byte window (genJumpData.refuses_short_target).
+//@ pure func table_ok() bool = patches != nil && (forall k uintptr :: has(patches, k) ==> patch_guard_ok(patches[k]) && patches[k].originPtr == k)
+//@ pure func windows_disjoint() bool = forall a uintptr, b uintptr :: has(patches, a) && has(patches, b) && a != b ==> a + 13 <= b || b + 13 <= a
+//@ func UnpatchAll
+//@   props C02 C11
+//@   requires table: table_ok()
+//@   requires disjoint: windows_disjoint()
+//@   requires lock_held: locked()
+//@   assigns mapof(patches), anyfield(patch, guard), textmem, perm, rw_wheld[addr(memory.memoryAccessLock)]
+//@   invariant loop 1 walk: locked() && patches != nil && (forall k uintptr :: iterating(k) ==> patch_guard_ok(iter_value(k)) && iter_value(k).originPtr == k && iter_value(k) == old(patches[k]) && old(has(patches, k)))
+//@     | && (forall k uintptr :: visited(k) ==> !has(patches, k))
+//@     | && (forall k uintptr :: iterating(k) && !visited(k) ==> iter_value(k).guard == old(patches[k].guard))
+//@   invariant loop 1 restored_so_far: forall k uintptr :: visited(k) && old(patches[k].guard) != nil && old(patches[k].guard.applied) ==> window_is(k, old(patches[k].guard.originBytes))
+//@   invariant loop 1 pages: perm_exec_kept()
+//@   ensures emptied: forall k uintptr :: old(has(patches, k)) ==> !has(patches, k)
+//@   ensures all_restored: forall k uintptr :: old(has(patches, k)) && old(patches[k].guard) != nil && old(patches[k].guard.applied) ==> window_is(k, old(patches[k].guard.originBytes))
+//@   ensures pages_rx: perm_exec_kept()
